@@ -105,21 +105,24 @@ func (t StartActivityTransition) do(env *Environment) (err error) {
 		}
 	}
 
-	taskmanMessage := task.NewTransitionTaskMessage(
-		workflow.GetActiveTasks(env.Workflow()),
-		sm.CONFIGURED.String(),
-		sm.START.String(),
-		sm.RUNNING.String(),
-		args,
-		env.Id(),
-	)
-	t.taskman.MessageChannel <- taskmanMessage
+	// With no active tasks there is nothing to command: the transition succeeds at once
+	if activeTasks := workflow.GetActiveTasks(env.Workflow()); len(activeTasks) != 0 {
+		taskmanMessage := task.NewTransitionTaskMessage(
+			activeTasks,
+			sm.CONFIGURED.String(),
+			sm.START.String(),
+			sm.RUNNING.String(),
+			args,
+			env.Id(),
+		)
+		t.taskman.MessageChannel <- taskmanMessage
 
-	incomingEv := <-env.stateChangedCh
-	// If some tasks failed to transition
-	if tasksStateErrors := incomingEv.GetTasksStateChangedError(); tasksStateErrors != nil {
-		env.currentRunNumber = 0
-		return tasksStateErrors
+		incomingEv := <-env.stateChangedCh
+		// If some tasks failed to transition
+		if tasksStateErrors := incomingEv.GetTasksStateChangedError(); tasksStateErrors != nil {
+			env.currentRunNumber = 0
+			return tasksStateErrors
+		}
 	}
 
 	log.WithField(infologger.Run, env.currentRunNumber).
